@@ -67,12 +67,12 @@ pub const PRESETS: &[Preset] = &[
     Preset { fat: 12, bps: 512, spc: 4, fats: 2, root_entries: 112, total_sectors: 2880 },
     Preset { fat: 12, bps: 1024, spc: 1, fats: 2, root_entries: 32, total_sectors: 300 },
     Preset { fat: 12, bps: 4096, spc: 1, fats: 2, root_entries: 128, total_sectors: 200 },
-    Preset { fat: 12, bps: 512, spc: 2, fats: 2, root_entries: 48, total_sectors: 700 },
+    Preset { fat: 12, bps: 512, spc: 2, fats: 2, root_entries: 40, total_sectors: 700 },
     Preset { fat: 12, bps: 512, spc: 128, fats: 2, root_entries: 512, total_sectors: 128 * 300 },
     Preset { fat: 12, bps: 2048, spc: 8, fats: 1, root_entries: 64, total_sectors: 8 * 500 },
     // FAT16
     Preset { fat: 16, bps: 512, spc: 1, fats: 2, root_entries: 512, total_sectors: 5000 },
-    Preset { fat: 16, bps: 512, spc: 2, fats: 1, root_entries: 16, total_sectors: 10000 },
+    Preset { fat: 16, bps: 512, spc: 2, fats: 1, root_entries: 100, total_sectors: 10000 },
     Preset { fat: 16, bps: 2048, spc: 1, fats: 2, root_entries: 64, total_sectors: 4400 },
     Preset { fat: 16, bps: 512, spc: 8, fats: 2, root_entries: 32, total_sectors: 8 * 4300 },
     // FAT32
